@@ -9,10 +9,11 @@ def retro_screen_kwargs(rng, flavour=None):
     if flavour is None:
         flavour = str(rng.choice(["mixed", "per_sample", "per_sample", "few_per_sample", "one_plate", "combo_only"]))
     observed = str(rng.choice(["none", "none", "some", "random"]))
+    pdc = float(rng.choice([0.0, 0.0, 0.08]))  # wells with the control in every column
     if flavour == "mixed":
-        kw = gen.realistic_screen_kwargs(rng, n_samples=(1, 6), n_rows=(3, 60), n_plates=(1, 12), p_single=0.25, p_dup=0.2, observed=observed)
+        kw = gen.realistic_screen_kwargs(rng, n_samples=(1, 6), n_rows=(3, 60), n_plates=(1, 12), p_single=0.25, p_dup=0.2, observed=observed, p_double_control=pdc)
     elif flavour == "per_sample":
-        kw = gen.realistic_screen_kwargs(rng, n_samples=(1, 6), n_rows=(3, 70), n_plates=(1, 7), p_single=0.2, p_dup=0.2, observed=observed, plate_per_sample=True)
+        kw = gen.realistic_screen_kwargs(rng, n_samples=(1, 6), n_rows=(3, 70), n_plates=(1, 7), p_single=0.2, p_dup=0.2, observed=observed, plate_per_sample=True, p_double_control=pdc)
     elif flavour == "few_per_sample":
         # several samples with few experiments each (at or below typical size limits)
         kw = gen.realistic_screen_kwargs(rng, n_samples=(3, 6), n_rows=(6, 18), n_plates=(1, 3), p_single=0.2, p_dup=0.1, observed=observed, plate_per_sample=bool(rng.random() < 0.5))
